@@ -99,6 +99,25 @@ CHECKS["C03"] = dict(
     design="8/C03", technique="fault enumeration at every syscall position against the TLA+ model Bufs.tla (M1+M4); TLC on MC_Bufs",
     note="A failing ftruncate and write returning 0 are outside the property's fault set. File times are driven 1000 s apart.")
 
+CHECKS["C17"] = dict(
+    level="model_checking",
+    text="Layout.tla assigns columns in visual order from the width classes of the tables of the tree under test and "
+         "transcribes ren_pos / ren_off / ren_cursor / ren_next / ren_noeol; TLC checks Tiling and RoundTrip on every line up "
+         "to a length over class representatives under option combinations and writes the expected arrays for renprobe.c; "
+         "uc_wid / uc_isbell / uc_iscomb of the code points are dumped and validated by TLC against linear table membership, "
+         "after checking that the tables are sorted and disjoint.",
+    design="8/C17", technique="TLA+ layout model evaluated exhaustively by TLC; case tables and dumps bound to ren.c / uc.c (M2)",
+    note="Width classes are those the tables of uc.c list (regenerated into UcTables.tla per run); terminal agreement is assumed.")
+CHECKS["C18"] = dict(
+    level="model_checking",
+    text="Layout.tla defines base direction, opposite-direction runs over character classes (independently of the regex "
+         "engine dir.c uses) and Reorder; TLC checks permutation and identity laws and writes the expected visual order for "
+         "every line up to a length under every textdirection; shaping is specified over the presentation forms of the "
+         "Unicode character database for 45 letters x neighbours x diacritics; renprobe.c calls dir_context, dir_reorder, uc_shape.",
+    design="8/C18", technique="TLA+ bidi / shaping model evaluated exhaustively by TLC; case tables bound to dir.c / uc.c (M2)",
+    note="Lines containing the characters of the configured direction marks are checked for the permutation property only. "
+         "Alef maksura is taken as right-joining (Arabic / Persian usage).")
+
 NOT_YET = {}
 
 def main():
